@@ -31,6 +31,18 @@ from props import c02
 
 LEAN_MODULE = "PydjinniModel.Props.C07"
 THEOREMS = [
+    "Pydjinni.Gen.jniRefSig_eq_desc",
+    "Pydjinni.Gen.jniMethodSig_eq",
+    "Pydjinni.Gen.ctorSig_eq",
+    "Pydjinni.Gen.jniClass_eq_javaClass",
+    "Pydjinni.Gen.lookups_resolve",
+    "Pydjinni.Gen.mangle_append",
+    "Pydjinni.Gen.jniPrefix_eq",
+    "Pydjinni.Gen.jniGetTypename_eq",
+    "Pydjinni.Gen.exports_are_natives",
+    "Pydjinni.Gen.natives_exported_once",
+    "Pydjinni.Gen.natives_exported_exactly_once",
+    "Pydjinni.Gen.c_types_correspond",
 ]
 LEVEL = "proof"
 TRUSTED = (
